@@ -45,7 +45,7 @@ CONSTANTS Waiters,    \* waiter ids (strings)
 VARIABLES via,        \* which binding this behaviour describes
           reg,        \* [Waiters -> Codes \cup {NoCode}] the code a waiter asked for
           called,     \* Wait invoked, not yet parked
-          waiting,    \* [InRange -> SUBSET Waiters] parked on the entry of a code
+          waiting,    \* [InRange -> SUBSET Waiters] parked on the table entry of a code
           released,   \* woken, Wait has not returned yet
           returned,   \* Wait has returned
           reqlog,     \* sequence of the sets of codes that arrived, wait frames included
@@ -58,7 +58,7 @@ hist  == <<reqlog, parkedAt, nreq>>
 vars  == <<via, reg, called, waiting, released, returned, reqlog, parkedAt, nreq, last>>
 
 NoCode  == -1
-InRange == 0 .. (TableSize - 1)
+InRange == Codes \cap (0 .. (TableSize - 1))    \* the explored codes that have an entry in the table
 InR(c)  == c \in InRange
 
 AllOf(wt)  == UNION {wt[c] : c \in InRange}
